@@ -71,6 +71,8 @@ class Network:
 
     def __init__(self):
         self.servers = {}  # netloc -> FakeHttpServer
+        self.aliases = {'localhost': '127.0.0.1'}
+        self.connect_hook = None  # callable(client) at every connect (C19: TLS handshake emulation)
         self.log = []  # WireEntry
         self.clients = []  # constructor records of every soap client: dict(netloc, ssl_context, cls, owner)
         self.interceptor = None  # callable(entry) -> None | ('status', code) | ('raise', exc) | ('drop',) | ('hold',) | ('rewrite', bytes)
@@ -90,6 +92,15 @@ class Network:
 
     def register(self, server):
         self.servers[server.netloc] = server
+
+    def find_server(self, netloc: str):
+        """The server listening at netloc; host names in `aliases` resolve to 127.0.0.1 (alternative host names)."""
+        server = self.servers.get(netloc)
+        if server is None and ':' in netloc:
+            host, port = netloc.rsplit(':', 1)
+            if host in self.aliases:
+                server = self.servers.get(f'{self.aliases[host]}:{port}')
+        return server
 
     def unregister(self, server):
         self.servers.pop(server.netloc, None)
@@ -124,7 +135,7 @@ class Network:
         return self._handle(entry, headers)
 
     def _handle(self, entry, headers):
-        server = self.servers.get(entry.netloc)
+        server = self.find_server(entry.netloc)
         if server is None or server.stopped:
             entry.error = ('raise', 'ConnectionRefusedError')
             raise ConnectionRefusedError(f'no server at {entry.netloc}')
@@ -164,7 +175,7 @@ class Network:
         entry = WireEntry(seq=len(self.log), kind='GET', netloc=client.netloc, path=url,
                           scheme='https' if client._ssl_context is not None else 'http')  # noqa: SLF001
         self.log.append(entry)
-        server = self.servers.get(client.netloc)
+        server = self.find_server(client.netloc)
         if server is None or server.stopped:
             raise ConnectionRefusedError(f'no server at {client.netloc}')
         component = server.dispatcher.get_instance(_first_path_element(url))
@@ -257,12 +268,11 @@ class LoopbackSoapClient(SoapClient):
 
     def connect(self):
         self._has_connection_error = False
-        server = NET.servers.get(self._netloc)
+        server = NET.find_server(self._netloc)
         if server is None or server.stopped:
             raise ConnectionRefusedError(f'no server at {self._netloc}')
-        hook = getattr(NET, 'connect_hook', None)
-        if hook is not None:
-            hook(self)
+        if NET.connect_hook is not None:
+            NET.connect_hook(self)
         self._connected = True
         self.sock_name = ('127.0.0.1', 50000 + len(NET.clients))
         self._fake_sock = _FakeSock(self.sock_name)
